@@ -1,6 +1,10 @@
 package sd
 
-import "github.com/semafind/semadb/models"
+import (
+	"sort"
+
+	"github.com/semafind/semadb/models"
+)
 
 // HistOpts selects what a history observes besides the API results of its
 // random batches.
@@ -59,7 +63,24 @@ func (r *Runner) RunHistory(histNo int, o HistOpts) error {
 			r.RankPanel(r.Shard, leaves, o.Rank, insertOnly)
 		}
 	}
+	var early []int // ids stored by the first batch (as a rule before a learned quantiser is trained)
 	for b := 0; b < o.Batches; b++ {
+		if b == 1 {
+			for id := range r.believedLive {
+				early = append(early, id)
+			}
+			sort.Ints(early)
+		}
+		if r.Cfg.Quantised && !o.InsertOnly && !r.Cfg.Mem && (b == 8 || b == 11) {
+			// a point stored before the quantiser was trained is removed after the training
+			for _, id := range early {
+				if r.believedLive[id] {
+					r.Delete([]int{id})
+					insertOnly = false
+					break
+				}
+			}
+		}
 		switch {
 		case o.InsertOnly && o.Graph:
 			r.GraphStepBatch(r.GenInsertBatch())
